@@ -203,4 +203,134 @@ theorem mutateGeneReEnable_check (weq : W → W → Bool) (hrefl : ∀ a, weq a 
   unfold reenableRel
   rw [x4, genesEq_refl weq hrefl]; rfl
 
+/-! ## the three structural mutators -/
+
+/-- **add-link**: the model's genome passes the relation the driver evaluates for `mutAddLink` -/
+theorem mutateAddLink_check (weq : W → W → Bool) (hrefl : ∀ a, weq a a = true)
+    (g g' : Genome W) (reg reg' : Reg W) (o : MutOpts W) (rs rs' : List Nat) (res : Bool)
+    (hw : C01.WFT g) (hi : C01.RegInv reg g)
+    (h : mutateAddLink g reg o rs = .ok ((g', reg', res), rs')) :
+    (if res then addLinkRel weq g g' else none) = none := by
+  cases res with
+  | false => rfl
+  | true =>
+    obtain ⟨gene, hg, hn, ht, _, _, ⟨n1, hn1, e1⟩, ⟨n2, hn2, e2, hsens⟩, hdup⟩ := mutateAddLink_spec g g' reg reg' o rs rs' h
+    have hwf := (C01.mutateAddLink_wf g g' reg reg' o rs rs' true hw hi h).1
+    -- the new number is not among the old ones: the result is strictly ascending
+    have hnd := sorted_inns_nodup _ hwf.wf.genesSorted
+    rw [hg] at hnd
+    have hnew : gene.inn ∉ g.genes.map (·.inn) :=
+      (List.nodup_cons.mp ((((MutateLemmas.geneInsert_perm g.genes gene).map (·.inn)).nodup_iff).mp hnd)).1
+    have hp : oldP g gene = false := by simpa [oldP] using hnew
+    refine addLinkRel_none weq hrefl g g' gene ht hn ?_ ?_ ?_ ?_ ?_ ?_
+    · rw [hg]; unfold geneInsert
+      rw [C01.insertAt_filter_of_neg _ _ _ (oldP g) hp]; exact filter_oldP_self g
+    · rw [hg]; unfold geneInsert
+      exact filter_insertAt_pos _ _ _ _ (by show (!oldP g gene) = true; rw [hp]; rfl)
+        (fun x hx => by simpa [oldP] using ⟨x, hx, rfl⟩)
+    · exact List.any_eq_true.mpr ⟨n1, hn1, by simp [e1]⟩
+    · exact List.any_eq_true.mpr ⟨n2, hn2, by simp [e2]⟩
+    · rw [List.any_eq_false]
+      intro y hy hc
+      simp only [Bool.and_eq_true, beq_iff_eq] at hc
+      exact hdup y hy ⟨hc.1.1, hc.1.2, hc.2⟩
+    · rw [List.any_eq_false]
+      intro m hm hc
+      simp only [Bool.and_eq_true, beq_iff_eq] at hc
+      have := C01.node_unique g.nodes hw.wf.nodesSorted m n2 hm hn2 (by rw [hc.1, e2])
+      rw [this, hsens] at hc; exact Bool.false_ne_true hc.2
+
+/-- **connect-sensors**: the model's genome passes the relation the driver evaluates for `mutConnectSensors`
+    (both results) -/
+theorem mutateConnectSensors_check (weq : W → W → Bool) (hrefl : ∀ a, weq a a = true)
+    (g g' : Genome W) (reg reg' : Reg W) (rs rs' : List Nat) (res : Bool)
+    (hw : C01.WFT g) (hi : C01.RegInv reg g)
+    (h : mutateConnectSensors g reg rs = .ok ((g', reg', res), rs')) :
+    connectSensorsRel weq g g' res = none := by
+  have hspec := mutateConnectSensors_spec g g' reg reg' res rs rs' h
+  cases res with
+  | false => rw [(hspec.2 rfl).1]; exact connectSensorsRel_none_false weq hrefl g
+  | true =>
+    obtain ⟨_, hn, ht, _, sensor, hs, hsens, hun, new, hne, hg, _, hperm, hall, hnd, hcover, htgt, _⟩ := hspec.1 rfl
+    have hwf := (C01.mutateConnectSensors_wf g g' reg reg' rs rs' true hw hi h).1
+    have hndi := (((hperm.map (·.inn)).nodup_iff).mp (sorted_inns_nodup _ hwf.wf.genesSorted))
+    rw [List.map_append, List.nodup_append] at hndi
+    have hp : ∀ x ∈ new, oldP g x = false := by
+      intro x hx
+      have hnot : x.inn ∉ g.genes.map (·.inn) := fun hm => hndi.2.2 x.inn hm x.inn (List.mem_map_of_mem hx) rfl
+      simpa [oldP] using hnot
+    have hnewf : (g'.genes.filter (fun y => !oldP g y)).Perm new := by
+      refine (hperm.filter _).trans ?_
+      rw [List.filter_append, filter_not_oldP_self, List.nil_append]
+      rw [List.filter_eq_self.mpr (fun x hx => by show (!oldP g x) = true; rw [hp x hx]; rfl)]
+    have hmem : ∀ x, x ∈ g'.genes.filter (fun y => !oldP g y) ↔ x ∈ new := fun x => hnewf.mem_iff
+    refine connectSensorsRel_none_true weq hrefl g g' _ sensor ht hn ?_ rfl ?_ ?_ hs hsens hun ?_ ?_ ?_
+    · rw [hg, filter_foldl_geneInsert_neg new g.genes _ hp]; exact filter_oldP_self g
+    · intro he; rw [he] at hnewf; exact hne hnewf.symm.eq_nil
+    · exact fun x hx => (hall x ((hmem x).mp hx)).1
+    · intro x hx
+      obtain ⟨o, ho, e⟩ := htgt x ((hmem x).mp hx)
+      have ho' := List.mem_filter.mp ho
+      exact ⟨o, ho'.1, by simpa using ho'.2, e⟩
+    · exact (((hnewf.map (·.dst)).nodup_iff).mpr hnd)
+    · intro o ho hos
+      have : o ∈ nonSensors g := List.mem_filter.mpr ⟨ho, by simp [hos]⟩
+      obtain ⟨x, hx, e⟩ := List.mem_map.mp (hcover o this)
+      exact ⟨x, (hmem x).mpr hx, e⟩
+
+/-- **add-node**: the model's genome passes the relation the driver evaluates for `mutAddNode` -/
+theorem mutateAddNode_check (weq : W → W → Bool) (hrefl : ∀ a, weq a a = true)
+    (g g' : Genome W) (reg reg' : Reg W) (o : MutOpts W) (rs rs' : List Nat) (res : Bool)
+    (hw : C01.WFT g) (hi : C01.RegInv reg g)
+    (h : mutateAddNode g reg o rs = .ok ((g', reg', res), rs')) :
+    (if res then addNodeRel weq g g' else none) = none := by
+  cases res with
+  | false => rfl
+  | true =>
+    obtain ⟨⟨k, old, n, i1, i2, hk, hen, hbias, hkind, hnodes, hgenes⟩, ht, _⟩ := mutateAddNode_spec g g' reg reg' o rs rs' h
+    have hwf := (C01.mutateAddNode_wf g g' reg reg' o rs rs' true hw hi h).1
+    -- the new numbers / the new id are not among the old ones: the result is strictly ascending
+    have hinns : (setEnabledAt g.genes k false).map (·.inn) = g.genes.map (·.inn) :=
+      modify_map_of_eq _ _ _ _ (fun _ => rfl)
+    have hnd := sorted_inns_nodup _ hwf.wf.genesSorted
+    rw [hgenes] at hnd
+    have hnd2 := (((((MutateLemmas.geneInsert_perm _ _).trans
+      ((MutateLemmas.geneInsert_perm _ _).cons _)).map (·.inn)).nodup_iff).mp hnd)
+    simp only [List.map_cons, List.nodup_cons, List.mem_cons, not_or, hinns] at hnd2
+    obtain ⟨⟨_, h2⟩, h1, _⟩ := hnd2
+    have hndn := sorted_ids_nodup _ hwf.wf.nodesSorted
+    rw [hnodes] at hndn
+    have hnid : n.id ∉ g.nodes.map (·.id) := by
+      have := (((C01.insertAt_perm g.nodes (insertIndex (g.nodes.map (·.id)) n.id) n).map (·.id)).nodup_iff).mp hndn
+      exact (List.nodup_cons.mp this).1
+    have hmemL : ∀ x ∈ setEnabledAt g.genes k false, oldP g x = true := by
+      intro x hx
+      have : x.inn ∈ g.genes.map (·.inn) := by rw [← hinns]; exact List.mem_map_of_mem hx
+      simpa [oldP] using this
+    have hq : ∀ m ∈ g.nodes, g.nodes.any (·.id == m.id) = true :=
+      fun m hm => List.any_eq_true.mpr ⟨m, hm, by simp⟩
+    have hqn : g.nodes.any (·.id == n.id) = false := by
+      rw [List.any_eq_false]; intro m hm hc
+      exact hnid (List.mem_map.mpr ⟨m, hm, by simpa using hc⟩)
+    have holdmem : old ∈ g.genes := List.mem_of_getElem? hk
+    refine addNodeRel_none weq hrefl g g' n
+      { inn := i1, src := old.src, dst := n.id, recur := old.recur, w := one, mnum := zero, en := true, trait := old.trait }
+      { inn := i2, src := n.id, dst := old.dst, recur := false, w := old.w, mnum := zero, en := true, trait := old.trait }
+      old k ht ?_ ?_ ?_ ?_ hk hen hbias hkind
+      ⟨rfl, rfl, rfl, rfl, rfl⟩ ⟨rfl, rfl, rfl, rfl, rfl⟩ ?_
+    · rw [hnodes]; unfold nodeInsert
+      exact filter_insertAt_pos _ _ _ _ (by simp [hqn]) (fun m hm => by simp [hq m hm])
+    · rw [hnodes]; unfold nodeInsert
+      rw [C01.insertAt_filter_of_neg _ _ _ (fun m : Node => g.nodes.any (·.id == m.id)) hqn]
+      exact List.filter_eq_self.mpr hq
+    · rw [hgenes]; unfold geneInsert
+      rw [C01.insertAt_filter_of_neg _ _ _ (oldP g) (by simpa [oldP] using h2),
+        C01.insertAt_filter_of_neg _ _ _ (oldP g) (by simpa [oldP] using h1)]
+      exact List.filter_eq_self.mpr hmemL
+    · rw [hgenes]
+      refine filter_insertAt_two _ _ _ _ _ ?_ (by simpa [oldP] using h2)
+      exact filter_insertAt_pos _ _ _ _ (by simpa [oldP] using h1) (fun x hx => by show (!oldP g x) = false; rw [hmemL x hx]; rfl)
+    · intro e
+      exact hnid (e ▸ (hw.wf.endpoints old holdmem).2)
+
 end GoNeat.C05
